@@ -1705,7 +1705,7 @@ class CodeGenerator(NodeVisitor):
 
             seen_refs.add(nsref.name)
             ref = frame.symbols.ref(nsref.name)
-            self.writeline(f"if not isinstance({ref}, Namespace):")
+            self.writeline(f"if not isinstance({ref}, Namespace):", nsref)
             self.indent()
             self.writeline(
                 "raise TemplateRuntimeError"
